@@ -61,6 +61,9 @@ def frag(kind):
         elif kind == "sign":
             sp["signs"].append({"id": 10, "elements": [("TrafficSignIDGermany", "MAX_SPEED", ["50"])], "first_occurrence": [1], "position": [5.0, 4.5], "virtual": False})
             sp["lanelets"][0].setdefault("signs", []).append(10)
+            # ... and a virtual sign (no physical object, but a position like any other sign)
+            sp["signs"].append({"id": 12, "elements": [("TrafficSignIDGermany", "MAX_SPEED", ["30"])], "first_occurrence": [1], "position": [15.0, -1.5], "virtual": True})
+            sp["lanelets"][0]["signs"].append(12)
         elif kind == "light":
             sp["lights"].append({"id": 11, "position": [19.0, 4.5], "cycle": [("RED", 2), ("GREEN", 3)], "offset": 0, "active": True, "direction": "ALL"})
             sp["lanelets"][0].setdefault("lights", []).append(11)
